@@ -66,7 +66,20 @@ struct St {
 
 pub struct Sched {
     m: Mutex<St>,
-    cv: Condvar,
+    /// one condition variable per thread: only the chosen thread is woken
+    cvs: Vec<Condvar>,
+}
+
+impl Sched {
+    fn wake(&self, st: &St) {
+        if st.abort.is_some() {
+            for c in &self.cvs {
+                c.notify_all();
+            }
+        } else if let Some(t) = st.current {
+            self.cvs[t].notify_all();
+        }
+    }
 }
 
 const ABORT_MSG: &str = "sched-abort";
@@ -150,7 +163,7 @@ impl Sched {
                 diverged: None,
                 steps: 0,
             }),
-            cv: Condvar::new(),
+            cvs: (0..n).map(|_| Condvar::new()).collect(),
         }
     }
 
@@ -162,7 +175,7 @@ impl Sched {
             st.current = None;
         }
         st.decide();
-        self.cv.notify_all();
+        self.wake(&st);
         loop {
             if st.abort.is_some() {
                 drop(st);
@@ -182,7 +195,7 @@ impl Sched {
                             st.last_running = Some(t);
                             st.current = None;
                             st.decide();
-                            self.cv.notify_all();
+                            self.wake(&st);
                             continue;
                         }
                     }
@@ -196,7 +209,7 @@ impl Sched {
                 st.last_running = Some(t);
                 return;
             }
-            st = self.cv.wait(st).unwrap();
+            st = self.cvs[t].wait(st).unwrap();
         }
     }
 
@@ -223,7 +236,7 @@ impl Sched {
             st.current = None;
         }
         st.decide();
-        self.cv.notify_all();
+        self.wake(&st);
     }
 }
 
@@ -410,76 +423,119 @@ pub struct Exec {
     pub steps: u64,
 }
 
+type ReaderOut = Vec<(usize, usize, Vec<String>)>;
+
+struct Job {
+    sched: Arc<Sched>,
+    comp: Arc<CF>,
+    rops: Vec<ROp>,
+    t: usize,
+    wdone: Arc<AtomicUsize>,
+    wbusy: Arc<AtomicUsize>,
+    reply: std::sync::mpsc::Sender<(usize, ReaderOut, Option<String>)>,
+}
+
+/// Reader threads are created once per configuration and reused for every
+/// schedule (thread creation would otherwise dominate the run time).
+pub struct Pool {
+    txs: Vec<std::sync::mpsc::Sender<Job>>,
+}
+
+impl Pool {
+    pub fn new(n: usize) -> Pool {
+        let mut txs = Vec::new();
+        for _ in 0..n {
+            let (tx, rx) = std::sync::mpsc::channel::<Job>();
+            std::thread::Builder::new()
+                .stack_size(512 * 1024)
+                .spawn(move || {
+                    for job in rx {
+                        let Job { sched, comp, rops, t, wdone, wbusy, reply } = job;
+                        let obs: Arc<dyn LockObserver> = Arc::new(Obs { sched: sched.clone(), t });
+                        set_thread_observer(Some(obs));
+                        let mut out: ReaderOut = Vec::new();
+                        let r = guarded(|| {
+                            sched.park(t, Pending::Start);
+                            for &op in &rops {
+                                let c0 = wdone.load(Ordering::SeqCst);
+                                let res = do_rop(&comp, op);
+                                let c1 = wdone.load(Ordering::SeqCst) + wbusy.load(Ordering::SeqCst);
+                                out.push((c0, c1, res));
+                            }
+                        });
+                        set_thread_observer(None);
+                        let panic = match r {
+                            Err(p) if !p.contains(ABORT_MSG) => Some(format!("reader thread {}: {}", t, p)),
+                            _ => None,
+                        };
+                        drop(comp);
+                        sched.finish(t);
+                        let _ = reply.send((t, out, panic));
+                    }
+                })
+                .expect("spawn reader thread");
+            txs.push(tx);
+        }
+        Pool { txs }
+    }
+}
+
 /// Runs one schedule (choice prefix, then default choices) on real threads.
-pub fn run_schedule(case: &SchedCase, image: &[u8], prefix: &[usize]) -> Exec {
+pub fn run_schedule(case: &SchedCase, image: &[u8], prefix: &[usize], pool: &Pool) -> Exec {
     let n = 1 + case.readers.len();
     let sched = Arc::new(Sched::new(n, case.policy, prefix.to_vec()));
     let mem = MemFile::new(image.to_vec());
     let mut comp: CF = cfb::OpenOptions::new().max_buffer_size(1024).open_with(mem).expect("open base image");
     let mut handles = Handles { s1: ops::NoDropOnPanic::new(comp.open_stream("/s1").expect("s1")), s2: ops::NoDropOnPanic::new(comp.open_stream("/s2").expect("s2")) };
-    let wdone = AtomicUsize::new(0); // completed writer ops
-    let wbusy = AtomicUsize::new(0); // 1 while a writer op is in progress
+    let comp = Arc::new(comp);
+    let wdone = Arc::new(AtomicUsize::new(0)); // completed writer handle calls
+    let wbusy = Arc::new(AtomicUsize::new(0)); // 1 while a writer handle call is in progress
     let mut exec = Exec { trace: Vec::new(), deadlock: None, diverged: None, panics: Vec::new(), reader_results: vec![Vec::new(); case.readers.len()], writer_results: Vec::new(), steps: 0 };
-    let comp_ref: &CF = &comp;
-    let reader_out: Vec<Mutex<Vec<(usize, usize, Vec<String>)>>> = case.readers.iter().map(|_| Mutex::new(Vec::new())).collect();
-    let panics: Mutex<Vec<String>> = Mutex::new(Vec::new());
-    std::thread::scope(|scope| {
-        for (ri, rops) in case.readers.iter().enumerate() {
-            let sched = sched.clone();
-            let out = &reader_out[ri];
-            let panics = &panics;
-            let wdone = &wdone;
-            let wbusy = &wbusy;
-            scope.spawn(move || {
-                let t = ri + 1;
-                let obs: Arc<dyn LockObserver> = Arc::new(Obs { sched: sched.clone(), t });
-                set_thread_observer(Some(obs));
-                let r = guarded(|| {
-                    sched.park(t, Pending::Start);
-                    for &op in rops {
-                        let c0 = wdone.load(Ordering::SeqCst);
-                        let res = do_rop(comp_ref, op);
-                        let c1 = wdone.load(Ordering::SeqCst) + wbusy.load(Ordering::SeqCst);
-                        out.lock().unwrap().push((c0, c1, res));
-                    }
-                });
-                set_thread_observer(None);
-                if let Err(p) = r {
-                    if !p.contains(ABORT_MSG) && !p.contains("<non-string panic>") {
-                        panics.lock().unwrap().push(format!("reader thread {}: {}", t, p));
-                    }
+    let (reply_tx, reply_rx) = std::sync::mpsc::channel();
+    for (ri, rops) in case.readers.iter().enumerate() {
+        pool.txs[ri]
+            .send(Job { sched: sched.clone(), comp: comp.clone(), rops: rops.clone(), t: ri + 1, wdone: wdone.clone(), wbusy: wbusy.clone(), reply: reply_tx.clone() })
+            .expect("reader pool thread is gone");
+    }
+    drop(reply_tx);
+    // the writer is this thread (it owns the handles)
+    let obs: Arc<dyn LockObserver> = Arc::new(Obs { sched: sched.clone(), t: 0 });
+    set_thread_observer(Some(obs));
+    let mut wres = Vec::new();
+    let r = guarded(|| {
+        sched.park(0, Pending::Start);
+        for (i, &op) in case.writer.iter().enumerate() {
+            let mut tick = |before: bool| {
+                if before {
+                    wbusy.store(1, Ordering::SeqCst);
+                } else {
+                    wdone.fetch_add(1, Ordering::SeqCst);
+                    wbusy.store(0, Ordering::SeqCst);
                 }
-                sched.finish(t);
-            });
+            };
+            let s = do_wop(&mut handles, op, i, &mut tick);
+            wres.push(s);
         }
-        // the writer is this thread (it owns the handles)
-        let obs: Arc<dyn LockObserver> = Arc::new(Obs { sched: sched.clone(), t: 0 });
-        set_thread_observer(Some(obs));
-        let mut wres = Vec::new();
-        let r = guarded(|| {
-            sched.park(0, Pending::Start);
-            for (i, &op) in case.writer.iter().enumerate() {
-                let mut tick = |before: bool| {
-                    if before {
-                        wbusy.store(1, Ordering::SeqCst);
-                    } else {
-                        wdone.fetch_add(1, Ordering::SeqCst);
-                        wbusy.store(0, Ordering::SeqCst);
-                    }
-                };
-                let s = do_wop(&mut handles, op, i, &mut tick);
-                wres.push(s);
-            }
-        });
-        set_thread_observer(None);
-        if let Err(p) = r {
-            if !p.contains(ABORT_MSG) && !p.contains("<non-string panic>") {
-                panics.lock().unwrap().push(format!("writer thread: {}", p));
-            }
-        }
-        sched.finish(0);
-        exec.writer_results = wres;
     });
+    set_thread_observer(None);
+    if let Err(p) = r {
+        if !p.contains(ABORT_MSG) {
+            exec.panics.push(format!("writer thread: {}", p));
+        }
+    }
+    sched.finish(0);
+    exec.writer_results = wres;
+    for _ in 0..case.readers.len() {
+        match reply_rx.recv() {
+            Ok((t, out, panic)) => {
+                exec.reader_results[t - 1] = out;
+                if let Some(p) = panic {
+                    exec.panics.push(p);
+                }
+            }
+            Err(_) => exec.panics.push("a reader thread vanished".into()),
+        }
+    }
     drop(handles);
     let st = sched.m.lock().unwrap();
     exec.trace = st.trace.clone();
@@ -489,10 +545,6 @@ pub fn run_schedule(case: &SchedCase, image: &[u8], prefix: &[usize]) -> Exec {
         if a != "diverged" {
             exec.deadlock = Some(a.clone());
         }
-    }
-    exec.panics = panics.into_inner().unwrap();
-    for (i, m) in reader_out.into_iter().enumerate() {
-        exec.reader_results[i] = m.into_inner().unwrap();
     }
     exec
 }
@@ -539,6 +591,7 @@ pub struct ConfigStats {
 pub fn explore_config(ctx: &Ctx, case: &SchedCase, image: &[u8], max_preemptions: Option<usize>, cap: u64) -> ConfigStats {
     let (table, wref) = sequential_reference(case, image);
     let mut stats = ConfigStats { schedules: 0, choice_points: 0, steps: 0, outcomes: BTreeSet::new(), bound_completed: None, capped: false };
+    let pool = Pool::new(case.readers.len());
     let mut stack: Vec<Vec<usize>> = vec![vec![]];
     while let Some(prefix) = stack.pop() {
         if stats.schedules >= cap {
@@ -546,7 +599,7 @@ pub fn explore_config(ctx: &Ctx, case: &SchedCase, image: &[u8], max_preemptions
             break;
         }
         crate::watch::enter(json!({"kind": "sched", "sched": case, "choices": prefix}));
-        let ex = run_schedule(case, image, &prefix);
+        let ex = run_schedule(case, image, &prefix, &pool);
         crate::watch::leave();
         stats.schedules += 1;
         stats.choice_points += ex.trace.len() as u64;
